@@ -1431,12 +1431,13 @@ def run(ctx):
     jobs.sort(key=lambda j: -len(j["cases"]))
     results = ctx.pmap(_run_chunk, jobs, chunk=1)
     violations = []
+    hist_given = {}
     keys = {}
     per_part = {}
     outcomes = {}
     for job, res in zip(jobs, results):
         pp = per_part.setdefault(job["part"], {"cases": 0, "distinct": set(), "violating": 0, "aborts": 0})
-        for case, r in res:
+        for idx_, (case, r) in enumerate(res):
             pp["cases"] += 1
             pp["distinct"].add(r["key"])
             keys.setdefault(r["key"], case)
@@ -1447,7 +1448,13 @@ def run(ctx):
                 pp["violating"] += 1
                 violations.append(r["crash"])
             for cause, msg in r["viol"]:
-                violations.append({"cause": cause, "msg": msg, "case": case})
+                v_ = {"cause": cause, "msg": msg, "case": case}
+                if idx_ and hist_given.get(cause, 0) < 2:
+                    # the calls that preceded it in the same worker process (a static variable, a cached descriptor or object in
+                    # the extension may carry over from them): used by the runner when the case does not reproduce alone
+                    hist_given[cause] = hist_given.get(cause, 0) + 1
+                    v_["alt_case"] = {"history": [c_ for c_, _ in res[:idx_ + 1]]}
+                violations.append(v_)
             if r["viol"]:
                 pp["violating"] += 1
     violations.sort(key=lambda v: (v["cause"], _witness_rank(v["case"]), len(json.dumps(v["case"])),
@@ -1501,6 +1508,8 @@ def run(ctx):
 def replay(ctx, case):
     _ensure_shim()
     _check_sanitized()
+    if "history" in case:
+        case = {"part": "seq", "cases": list(case["history"])}        # the calls of one worker process, in order
     res = _run_chunk({"part": case["part"], "k": 0, "cases": [case]})
     (c, r), = res
     if r.get("crash"):
